@@ -5,6 +5,8 @@ CONSTANTS
   MaxRegens = 5
   Invalid = {}
   Mode = "concurrent"
+  Dirs = {"main"}
+  WatchDirs = "rearm"
   Kinds = {"write"}
 INVARIANTS Converges
 VIEW View
